@@ -258,6 +258,17 @@ def run_case(case, rec, ctx):
         builder(res, _pool(ctx, case["L"]))  # judged by the attached contract
         if not case["edw"] and not case["ff"]:
             builder(res, _pool(ctx, None))
+        # history on this one builder: its public attributes are reassigned between calls for the *same* resonance and
+        # variable pool (every call is judged against the attribute values it sees)
+        pool_ = _pool(ctx, case["L"])
+        for step in range(4):
+            builder.phsp_factor = getattr(D, PHSP[(PHSP.index(case["phsp"]) + 1 + step) % len(PHSP)])
+            if step % 2:
+                builder.form_factor = not builder.form_factor
+            if step == 2:
+                builder.energy_dependent_width = not builder.energy_dependent_width
+            rec.hit("history:builder_reconfigured")
+            builder(res, pool_)
         return
     if chk == "convenience":
         name, L = case["name"], case["L"]
